@@ -285,6 +285,8 @@ class SimAdapter:
             m.rescale_stds(op["factor"])
         elif k == "reset_stds":
             m.reset_stds()
+        elif k == "change_logly":
+            m.change_logly(op["logly"], list(op["names"]))
         elif k == "portable_roundtrip":
             import json
             ir = _irispie()
@@ -361,6 +363,13 @@ class SimAdapter:
                 out["smooth"] = {n: cols(sm[n]) for n in names if n in sm}
             except Exception as e:
                 out["smooth"] = "EXC:" + type(e).__name__
+        # the unsolved first-order system at the current values: exposes what a later solve() would start from
+        # (stale derived descriptors show up here before anybody re-solves)
+        try:
+            systems = m.systemize(unpack_singleton=False)
+            out["system"] = byv([{n: arr(getattr(sy, n)) for n in ("A", "B", "C", "D", "F", "G", "H", "J")} for sy in systems])
+        except Exception as e:
+            out["system"] = "EXC:" + type(e).__name__
         if t["shocks"]:
             try:
                 ac = m.get_acov(up_to_order=1, unpack_singleton=False)
